@@ -4,6 +4,7 @@ package ftp
 
 import (
 	"context"
+	"errors"
 	"io"
 	"net"
 
@@ -14,6 +15,17 @@ type zzCutF struct {
 	zzSConn
 	cut  int
 	cut2 int // second cut (0: none); thorough tier
+	// the client may be gone by the time replies are written: writes fail after failAfter
+	// successful ones (-1: never)
+	failAfter, writes int
+}
+
+func (c *zzCutF) Write(b []byte) (int, error) {
+	if c.failAfter >= 0 && c.writes >= c.failAfter {
+		return 0, errors.New("write: broken pipe")
+	}
+	c.writes++
+	return c.zzSConn.Write(b)
 }
 
 func (c *zzCutF) Read(b []byte) (int, error) {
@@ -32,7 +44,8 @@ func (c *zzCutF) Read(b []byte) (int, error) {
 }
 
 // C04/ftp: two commands (the first with a symbolic argument) in one stream split at any
-// position, through the real service Handle (control loop + event pump).
+// position, through the real service Handle (control loop + event pump); the client may
+// stop reading replies (writes fail from the start or after the greeting).
 func zzH_C04_ftp() {
 	arg := zzString(2)
 	for j := 0; j < 2; j++ {
@@ -49,7 +62,8 @@ func zzH_C04_ftp() {
 	rec := &zzFRec{}
 	s := &ftpService{server: NewServer(&ServerOpts{Auth: &User{users: map[string]string{}}}), driver: &zzDriver{}, recv: make(chan string)}
 	s.SetChannel(rec)
-	conn := &zzCutF{zzSConn: zzSConn{data: stream, err: io.EOF}, cut: cut, cut2: cut2}
+	failAfter := []int{-1, 0, 1}[zzLen(0, 2)]
+	conn := &zzCutF{zzSConn: zzSConn{data: stream, err: io.EOF}, cut: cut, cut2: cut2, failAfter: failAfter}
 	s.Handle(context.Background(), conn)
 	zzQuiesce()
 	var got []string
